@@ -8,6 +8,7 @@ package util
 
 import (
 	"fmt"
+	"strings"
 
 	release "helm.sh/helm/v4/pkg/release/v1"
 )
@@ -27,4 +28,49 @@ func H12Weight() {
 	}{Name: "h", Annotations: map[string]string{release.HookWeightAnnotation: s}}}
 	vAssert("weight/annotation-parsed-as-signed-decimal", calculateHookWeight(h) == w)
 	vObservef("%q -> %d", s, calculateHookWeight(h))
+}
+
+// H12Policies ("honour delete policies") — the delete policies a hook carries are
+// exactly the comma-separated items of its helm.sh/hook-delete-policy annotation,
+// each trimmed and lower-cased, in order — however the author spaced or cased the
+// list. Runs the real SortManifests / manifestFile.sort / operateAnnotationValues
+// (YAML decoding cut as in H08Partition; the native replay parses the real YAML).
+func H12Policies() {
+	names := []release.HookDeletePolicy{release.HookSucceeded, release.HookFailed, release.HookBeforeHookCreation}
+	n := ndIntRange("policies", 1, vBound("policies", 3))
+	var want []release.HookDeletePolicy
+	ann := ""
+	for k := 0; k < n; k++ {
+		p := names[ndChoice("policy", len(names))]
+		item := string(p)
+		switch ndChoice("spelling", 3) {
+		case 1:
+			item = " " + item
+		case 2:
+			item = "\t " + strings.ToUpper(item[:1]) + item[1:] + " "
+		}
+		if k > 0 {
+			ann += ","
+		}
+		ann += item
+		want = append(want, p)
+	}
+	d := &docSpec{id: 0, file: "templates/h.yaml", kind: "Job", meta: 4, events: "pre-install", weight: "0", policy: ann}
+	d.text = "# doc-0\nplaceholder: true"
+	if ndNative() {
+		d.text = fmt.Sprintf("# doc-0\napiVersion: v1\nkind: Job\nmetadata:\n  name: n0\n  annotations:\n    %q: %q\n    %q: %q\n    %q: %q",
+			release.HookAnnotation, d.events, release.HookWeightAnnotation, d.weight, release.HookDeleteAnnotation, d.policy)
+	}
+	docSpecs = []*docSpec{d}
+	hooks, generic, err := SortManifests(map[string]string{d.file: d.text}, nil, InstallOrder)
+	vAssert("policies/sorted", err == nil && len(hooks) == 1 && len(generic) == 0)
+	if len(hooks) != 1 {
+		return
+	}
+	got := hooks[0].DeletePolicies
+	vAssert("policies/exactly-the-annotated-ones-in-order", len(got) == len(want))
+	for k := range want {
+		vAssert("policies/exactly-the-annotated-ones-in-order", k < len(got) && got[k] == want[k])
+	}
+	vObservef("%q -> %v", ann, got)
 }
